@@ -1,10 +1,10 @@
-SPECIFICATION Spec
+SPECIFICATION TSpec
 CONSTANTS
-  Configs <- QSelectConfigs
+  Configs = {}
   Fixed = TRUE
-  AllowForeignClose = FALSE
+  AllowForeignClose = TRUE
   AllowCancel = TRUE
-VIEW View
+CONSTRAINT HW
 INVARIANT PacketBoundary
 INVARIANT NoStaleOutput
 INVARIANT CleanSuccess
@@ -19,5 +19,5 @@ INVARIANT CancelReturnsCtx
 INVARIANT CancelCloses
 INVARIANT CancelPacketOnce
 INVARIANT NoOrphans
-
+POSTCONDITION Accepted
 CHECK_DEADLOCK FALSE
